@@ -55,7 +55,12 @@ func genC07(seed uint64, run int, tier string) Scenario {
 	sc.F = simnet.NoFaults()
 	sc.F.CloseMode = pick(r, "eof", "eof", "err", "stuck")
 	sc.F.DropAfterEOF = r.IntN(2) == 0
+	sc.F.WriteFailAfterLoss = r.IntN(2) == 0
 	sc.Driver = pick(r, "generic", "generic", "network")
+	if r.IntN(3) == 0 {
+		// an on-close hook that talks to the device, as every platform definition has
+		sc.OnClose = []string{pick(r, "exit", "quit", "logout")}
+	}
 	var cmdMode *peer.Mode
 	if sc.Driver == "network" {
 		tree := g.tree(between(r, 1, 3), 30, nil)
